@@ -50,6 +50,7 @@ def check_writes(I, calls, R, E, start, size_t, what):
 def h_reliable_write(I, job):
     K = job['calls']
     size = I.named('size', 64); st = I.term(size, 64); I.assume(z3.ULE(st, job['maxsize']))
+    if 'sizes' in job: I.assume(z3.Or([st == v for v in job['sizes']]))
     buf = I.new_obj(16, 'buf', 'heap')
     rets, errs, log, nc, R, E = make_script(I, K)
     rc = I.concretize(I.call('@verif_reliable_write', [3, buf, size, rets, errs, K, log, 4 * K, nc]), 'rc')
@@ -162,9 +163,9 @@ def harnesses(tier):
     q = tier == 'quick'
     K = 3 if q else 4
     hs = [
-        Harness('reliable_write', 'io', h_reliable_write, jobs=[dict(calls=K, maxsize=1 << 31), dict(calls=2, maxsize=(1 << 31) + (1 << 28))],
+        Harness('reliable_write', 'io', h_reliable_write, jobs=[dict(calls=3, maxsize=1 << 31), dict(calls=2, maxsize=(1 << 31) + (1 << 28))] + ([] if q else [dict(calls=4, maxsize=1 << 31, sizes=[v]) for v in (3, 4, 7, 1 << 31)]),
                 desc='reliable_write with up to %d write() calls returning arbitrary values allowed by POSIX (short writes, EINTR, any errno), symbolic size: each write continues at the current offset with count <= remaining (<= 100 MiB); normal return iff everything was written and nothing but EINTR failed; otherwise std::system_error' % K,
-                bounds='<= %d write() calls, size <= 2^31 (+2^28)' % K, testgen=gen_script(K, lambda rnd: {'size': rnd.choice([0, 1, 3, 6])}), wall=900),
+                bounds='<= 3 write() calls with symbolic size <= 2^31 (+2^28 with 2 calls)%s' % ('' if q else '; 4 calls with size 3, 4, 7, 2^31 (the 4-call sum over a symbolic 64-bit size, or a size just above the 100 MiB write limit, is not decided by the solver: unknown after 90 s + 240 s)'), testgen=gen_script(3, lambda rnd: {'size': rnd.choice([0, 1, 3, 6])}), wall=900),
         Harness('no_compressor', 'io', h_no_compressor, jobs=[dict(calls=5 if q else 6, fd=f, sync=s) for f in (1, 5) for s in (0, 1)],
                 desc='NoCompressor: write, write, close, close on fd 1 (stdout) and fd 5, fsync yes/no, with an arbitrary fault script: every byte handed to write() in order; fsync before close iff requested; stdout neither synced nor closed; second close harmless; any failing call surfaces as std::system_error, none spuriously; file_size()',
                 bounds='<= 6 OS calls, two writes of <= 3 bytes', testgen=gen_script(5 if q else 6, lambda rnd: {'size_a': rnd.randint(0, 4), 'size_b': rnd.randint(0, 4)})),
